@@ -543,3 +543,131 @@ func init() {
 		Title: "the DAG that reads are resolved against is the one a restart reloads (shared with R3.3): every change of a node's parents/children is followed by a save of the repo",
 		Fn:    ruleR3_3})
 }
+
+// ---------------------------------------------------------------------------------------------
+// R13.14 — labelsz counts additions and removals under the same ROI filter
+// R13.15 — a sync consumer builds the versioned context of each message from that message
+
+func init() {
+	register(ruleDef{ID: "R13.14", Prop: "C13", Tier: "quick", Floor: 4,
+		Title: "ROI-filtered counts stay filtered: in labelsz every change of a count (for an added as for a removed element) is made only for positions its ROI filter accepts",
+		Fn:    ruleLabelszROISymmetric})
+	register(ruleDef{ID: "R13.15", Prop: "C13", Tier: "quick", Floor: 2,
+		Title: "derived views are updated at the version of the event: in a sync consumer the versioned context handed to a handler is built inside the loop from the version of the message just received",
+		Fn:    ruleSyncCtxPerMessage})
+}
+
+func ruleLabelszROISymmetric(r *Run) {
+	w := r.W
+	f := w.method("datatype/labelsz", "Data", "modifyElements")
+	if f == nil || len(f.Blocks) == 0 {
+		r.violation("labelsz.Data.modifyElements", "not found", "-")
+		return
+	}
+	var roiIfs []*ssa.If
+	for _, b := range f.Blocks {
+		if ifi, ok := b.Instrs[len(b.Instrs)-1].(*ssa.If); ok {
+			if c, ok := ifi.Cond.(*ssa.Call); ok && callName(c) == "inROI" {
+				roiIfs = append(roiIfs, ifi)
+			}
+		}
+	}
+	n := 0
+	for _, b := range f.Blocks {
+		for _, in := range b.Instrs {
+			mu, ok := in.(*ssa.MapUpdate)
+			if !ok {
+				continue
+			}
+			if _, isMk := mu.Map.(*ssa.MakeMap); !isMk {
+				continue
+			}
+			if loopOf(mu.Block()) == nil {
+				continue
+			}
+			// only the tally of changes (int32 deltas), built while ranging over the delta
+			if bt, ok := mu.Value.Type().Underlying().(*types.Basic); !ok || bt.Kind() != types.Int32 {
+				continue
+			}
+			n++
+			guarded := false
+			for _, ifi := range roiIfs {
+				if guardedByEdge(ifi, 0, mu) {
+					guarded = true
+				}
+			}
+			r.check(guarded, fmt.Sprintf("modifyElements:count-change#%d:inside-roi-filter", n), "the change is made on the accepting edge of inROI",
+				"a count is changed for an element without asking the ROI filter (the other direction does ask): removing an element outside the ROI decrements a count that never included it", w.pos(mu.Pos()))
+		}
+	}
+	r.check(n >= 4, "labelsz.modifyElements:count-changes", fmt.Sprintf("%d count changes", n), "too few: rule needs review", w.fpos(f))
+}
+
+func ruleSyncCtxPerMessage(r *Run) {
+	w := r.W
+	n := 0
+	for _, f := range w.RepoFuncs {
+		if len(f.Blocks) == 0 || f.Parent() != nil || !strings.HasPrefix(relPkg(pkgPathOf(f)), "datatype/") || strings.HasSuffix(w.fposFile(f), "_test.go") {
+			continue
+		}
+		// the receive from the instance's sync channel
+		var recv []ssa.Value
+		var recvBlock *ssa.BasicBlock
+		for _, b := range f.Blocks {
+			for _, in := range b.Instrs {
+				if sel, ok := in.(*ssa.Select); ok {
+					for _, st := range sel.States {
+						if st.Dir == types.RecvOnly && isSyncChan(st.Chan) {
+							for _, ref := range *sel.Referrers() {
+								if ex, ok := ref.(*ssa.Extract); ok && typeIs(ex.Type(), "datastore", "SyncMessage") {
+									recv = append(recv, ex)
+									recvBlock = sel.Block()
+								}
+							}
+						}
+					}
+				}
+			}
+		}
+		if len(recv) == 0 {
+			continue
+		}
+		scc := loopOf(recvBlock)
+		for _, c := range calls(f) {
+			if !isCallTo(c, "datastore", "", "NewVersionedCtx") {
+				continue
+			}
+			n++
+			fromMsg := false
+			for d := range dataDeps(c.Common().Args[1]) {
+				for _, rv := range recv {
+					if d == rv {
+						fromMsg = true
+					}
+				}
+			}
+			inLoop := scc != nil && scc[c.Block()]
+			// the handlers get this very context, not one carried over from an earlier message
+			fresh := true
+			if scc != nil {
+				for _, h := range calls(f) {
+					if !scc[h.Block()] || h == c {
+						continue
+					}
+					for _, a := range h.Common().Args {
+						pt, ok := a.Type().Underlying().(*types.Pointer)
+						if !ok || !typeIs(pt.Elem(), "datastore", "VersionedCtx") {
+							continue
+						}
+						if _, isPhi := stripConv(a).(*ssa.Phi); isPhi {
+							fresh = false
+						}
+					}
+				}
+			}
+			r.check(fromMsg && inLoop && fresh, fname(f)+":versioned-context:from-this-message", "built inside the loop from the received message's version",
+				"the sync consumer hands its handlers a versioned context that is not built from the message just received (hoisted out of the loop, or built from another version): events of later versions update the derived views of the first event's version", w.pos(c.Pos()))
+		}
+	}
+	r.check(n >= 2, "datatype:sync-consumer-contexts", fmt.Sprintf("%d versioned contexts built in sync consumers", n), "too few: rule needs review", "-")
+}
